@@ -7,6 +7,7 @@ import (
 	"go/token"
 	"go/types"
 	"os"
+	"regexp"
 	"sort"
 	"strings"
 
@@ -197,6 +198,27 @@ func (p *Prog) FuncName(fn *ssa.Function) string {
 	s = strings.ReplaceAll(s, p.Module+".", "olareg.")
 	s = strings.ReplaceAll(s, p.Module, "olareg")
 	s = strings.ReplaceAll(s, "github.com/opencontainers/go-digest", "digest")
+	return s
+}
+
+var closureNum = regexp.MustCompile(`\$\d+`)
+var typeArgSuffix = regexp.MustCompile(`\)\.(\w+)\[[^\]]*\]`)
+
+// KeyName is FuncName made stable for violation keys: closure numbers and the repeated type
+// arguments of instantiated methods are dropped.
+func (p *Prog) KeyName(fn *ssa.Function) string { return KeyOfName(p.FuncName(fn)) }
+
+// KeyOfName normalises a rendered function name.
+func KeyOfName(s string) string {
+	if i := strings.Index(s, ":"); i > 0 && !strings.Contains(s[:i], "(") && !strings.Contains(s[:i], ".") {
+		return s[:i+1] + KeyOfName(s[i+1:])
+	}
+	s = typeArgSuffix.ReplaceAllString(s, ").$1")
+	s = closureNum.ReplaceAllString(s, "$$fn")
+	if i := strings.Index(s, "["); i > 0 && !strings.HasPrefix(s, "(") {
+		// generic function instance: cache.New[...]
+		s = s[:i]
+	}
 	return s
 }
 
